@@ -1,13 +1,5 @@
 HOOK_COMMITS = []
-NOT_APPLICABLE = [
-    {"property_id": p, "reason": "check under construction in this build round (see DESIGN.md §10 staging); will be claimed once its theorem file and correspondence leg are committed"}
-    for p in ["C01","C02","C03","C04","C05","C06","C07","C08","C09","C10","C11","C12","C13","C14","C15","C16","C17","C18","C20"]
-]
-TEXT = {
- "C19": {
-  "text": "Theorem C19_unescape_escape: for every string of valid Unicode scalars and every IsPrint oracle, the model's Unescape(Escape s) = s (induction over the string, no bound on length); C19_meta_table_ok re-checks the metacharacter table generated from escape.go. The model is tied to the code by 40k+ differential cases per run (Escape and Unescape outputs, including malformed escapes), and the literal-pattern half is sampled against the real compiler.",
-  "design_ref": "DESIGN.md §4 C19",
-  "note": "Coq kernel; no axioms; oracle hypothesis meta_not_word checked at run time; the statement 'Escape(s) compiles to a literal under every option set' is sampled (leg c19-literal), not proved.",
-  "technique": "Coq proof (induction) over executable model + differential correspondence via extraction",
- },
-}
+ALL = ["C%02d" % i for i in range(1, 21)]
+def not_applicable(claimed):
+    return [{"property_id": p, "reason": "check under construction in this build round (see DESIGN.md §10 staging); will be claimed once its theorem file and correspondence leg are committed"}
+            for p in ALL if p not in claimed]
